@@ -746,6 +746,17 @@ func (h *hist) knownClass(s Step) string {
 				return "hasone-zero-pointer"
 			}
 		}
+		// slice of owners whose other belongs-to relation differs: the same unrestricted
+		// UpdateColumns writes one owner's other foreign key to every owner of the slice
+		other := "Chief"
+		if s.Rel == "Chief" {
+			other = "Boss"
+		}
+		for _, o := range h.su.Mem {
+			if h.m.boss[other][o] != h.m.boss[other][h.su.Mem[0]] {
+				return "belongsto-clear-slice-other-fk"
+			}
+		}
 		if s.Unscoped {
 			for _, o := range h.su.Mem {
 				if current(o) != 0 {
@@ -758,6 +769,13 @@ func (h *hist) knownClass(s Step) string {
 			for _, o := range h.su.Mem {
 				if current(o) != 0 {
 					return "belongsto-unscoped-replace-newtarget"
+				}
+			}
+		}
+		if s.Unscoped && s.Rel == "Chief" { // value foreign key: only re-setting the current target goes wrong
+			for i, o := range h.su.Mem {
+				if c := current(o); c != 0 && s.Args[i][len(s.Args[i])-1].ID == c {
+					return "belongsto-unscoped-replace-same"
 				}
 			}
 		}
@@ -1023,6 +1041,8 @@ func (h *hist) genStep(rt *rapid.T, allowUnscoped bool) (Step, stepInfo) {
 		var cs []cand
 		if s.Act != "delete" {
 			cs = append(cs, cand{Val{New: "?"}, "val:new"})
+		} else if len(already) > 0 {
+			cs = append(cs, cand{Val{New: "?"}, "val:unsaved-in-delete"}) // names no link: must change nothing
 		}
 		for _, t := range sortedKeys(h.m.rows[r.Name]) {
 			holders := []uint{}
@@ -1152,7 +1172,7 @@ func (h *hist) genStep(rt *rapid.T, allowUnscoped bool) (Step, stepInfo) {
 		n := rapid.IntRange(1, 3).Draw(rt, "nvals")
 		var vs []Val
 		for i := 0; i < n; i++ {
-			if v := draw(0, vs); v.ID != 0 {
+			if v := draw(0, vs); v.ID != 0 || v.New != "" {
 				vs = append(vs, v)
 			}
 		}
@@ -1165,10 +1185,10 @@ func (h *hist) genStep(rt *rapid.T, allowUnscoped bool) (Step, stepInfo) {
 
 // ---- the property ---------------------------------------------------------------------------------
 
-const ruleText = "C12: one history = saved owners 1..3 of one owner type carrying has-one, has-many, polymorphic has-many, belongs-to and many-to-many relations; " +
+const ruleText = "C12: one history = saved owners 1..3 of one owner type carrying has-one (*T), has-many ([]T), polymorphic has-many, belongs-to (pointer key + *T, and value key + T) and many-to-many ([]*T) relations; " +
 	"4 saved targets per relation; links of database-only owners (and of Preload-ed in-memory owners) seeded with plain SQL before the first call; " +
 	"1-8 calls Append/Replace/Delete/Clear/Count/Find on db.Model(&owner).Association(rel) (single mode) or db.Model(&owners) (slice of 1-3 owner objects, []Owner or []*Owner, one argument per owner for Append/Replace), " +
-	"scoped or .Unscoped(), the history staying on one relation kind or mixing the five on the same object(s); values are fresh copies of saved targets (unlinked, linked to this owner, linked to another owner, twice in one call) or new unsaved targets, " +
+	"scoped or .Unscoped(), the history staying on one relation kind or mixing the five on the same object(s); values are fresh copies of saved targets (unlinked, linked to this owner, linked to another owner, twice in one call) or new unsaved targets (in Delete: an unsaved value that names no link), " +
 	"passed as pointers, []T, *[]T or []*T; has-one/belongs-to calls take one value per owner; in slice mode a has-one/has-many target is never given to two owners in one call nor moved between two in-memory owner objects. " +
 	"After every call: all tables read with plain SQL equal a link-set model (cardinality per kind, targets survive unless Unscoped), Count() and Find() through the same object(s) equal the model, " +
 	"and the distinct non-zero keys in every in-memory relation field of every in-memory owner equal the model. " +
@@ -1268,7 +1288,11 @@ func per(rel, act string, unscoped bool, ids ...[]uint) Step {
 		for _, id := range l {
 			vs = append(vs, Val{ID: id})
 		}
-		s.Args, s.Forms = append(s.Args, vs), append(s.Forms, "slice")
+		f := "slice"
+		if len(vs) == 1 {
+			f = "ptrs"
+		}
+		s.Args, s.Forms = append(s.Args, vs), append(s.Forms, f)
 	}
 	return s
 }
@@ -1336,4 +1360,16 @@ func TestC12WitnessBelongsToUnscopedDeleteUnnamed(t *testing.T) {
 // `owner_id IN (1,2) AND tag_id NOT IN (1,2)`: both owners keep both tags.
 func TestC12WitnessM2MSliceReplace(t *testing.T) {
 	witness(t, sliceSetup("Tags", 2), per("Tags", "append", false, []uint{1, 2}, []uint{1, 2}), per("Tags", "replace", false, []uint{1}, []uint{2}))
+}
+
+// Chief.Append(c1); Chief.Unscoped().Replace(c1) (value foreign key): re-setting the current
+// target deletes it and leaves the owner pointing at the deleted row.
+func TestC12WitnessBelongsToUnscopedSameTarget(t *testing.T) {
+	witness(t, plainSetup("Chief"), one("Chief", "append", false, 1), one("Chief", "replace", true, 1))
+}
+
+// db.Model(&[]Owner{o1,o2}): Chief.Append(c1; c2); Boss.Clear() must only clear boss_id, but
+// runs `UPDATE owners SET boss_id = NULL, chief_id = 2 WHERE id IN (1,2)`: owner 1 loses chief c1.
+func TestC12WitnessBelongsToClearSliceOtherFK(t *testing.T) {
+	witness(t, sliceSetup("mixed", 2), per("Chief", "append", false, []uint{1}, []uint{2}), one("Boss", "clear", false))
 }
